@@ -702,8 +702,10 @@ class StrategyBase(Node):
         """
         Update strategy. Updates prices, values, weight, etc.
         """
-        # resolve stale state
-        self.root.stale = False
+        # resolve stale state (only an update of the whole tree does: updating
+        # a sub-strategy on its own leaves what is pending elsewhere pending)
+        if self.root is self:
+            self.stale = False
 
         # update helpers on date change
         # also set newpt flag
